@@ -54,8 +54,19 @@ def _solo_child(world, steps, overrides, calc_cfg, step_budget=None, user_filter
     # normally the solo run uses the plain Atmo (which also checks that the step seam is transparent); only when the
     # simulated operation ran out of its deterministic step budget is the solo run given the same budget through the
     # seam, so that "does not terminate solo either" is decided by counting, not by a wall clock
+    edits = list((overrides or {}).get("edits") or [])
+    if any(e[0] == "atmos" and e[2] == "humidity" for e in edits):
+        # `atmo.humidity = x` is a property with a setter: its meaning is "the atmosphere as if built with humidity x", so the
+        # solo run BUILDS it with x instead of going through the same setter (which would make both sides agree on
+        # whatever the setter does or forgets to do)
+        import copy
+        world = copy.deepcopy(world)
+        for e in edits:
+            if e[0] == "atmos" and e[2] == "humidity":
+                world["atmos"][e[1]]["humidity"] = e[3]
+        edits = [e for e in edits if not (e[0] == "atmos" and e[2] == "humidity")]
     b = Builder(world, shared=False, seam=step_budget is not None, overrides=overrides, calc_cfg=calc_cfg)
-    b.apply_edits((overrides or {}).get("edits"))
+    b.apply_edits(edits)
     if step_budget is not None:
         n = [0]
 
